@@ -43,6 +43,13 @@ CLAIMED = {
             "symbolic execution of the real DDM/EDDM/STEPD.update with z3 against an executable specification: all outcome "
             "sequences up to N with universally quantified thresholds and arbitrary integer labels (exact floats per path), "
             "plus one inductive step from an arbitrary state in real arithmetic"),
+    "C07": ("DESIGN.md 7/C07",
+            "np.histogram on symbolic data is the counting model on equally spaced edges; decision-logic runs use concrete "
+            "placeholder batches with per-feature distances / bootstrap epsilon as uninterpreted non-negative functions; JS "
+            "distance mathematics trusted (scipy); whole-pipeline symmetry follows by composition, not one query",
+            "symbolic execution with z3 of the real HDM code: Hellinger kernel lemma on symbolic histograms (formula, symmetry, "
+            "zero for proportional, <= sqrt 2), argument obligations on the recorded np.histogram calls (bins, common range), and "
+            "bounded batch histories compared with a functional reference of epsilon / beta / decision / reference bookkeeping"),
     "C08": ("DESIGN.md 7/C08",
             "np.min/ptp/unique().size of the partitioner module replaced by exact non-forking encodings (validated against "
             "numpy each run); scipy.stats.entropy is a recording stub (its own mathematics trusted); cutpoint_proportion_lbound=0",
